@@ -24,7 +24,7 @@ def item(x):
 
 
 # ------------------------------------------------------------------------------ strategies
-def items_strategy(tier):
+def items_strategy(tier, mixed=False):
     big = tier == "thorough"
     universe = st.sampled_from([2, 3, 5, 20, 200] if big else [2, 3, 5, 20])
     def mk(u):
@@ -33,15 +33,18 @@ def items_strategy(tier):
             st.integers(0, u - 1),
             st.lists(st.integers(0, 2), min_size=1, max_size=2),
             st.text(max_size=3),
+            # values that compare equal in Python but are different items for a sketch (1 / True / 1.0, 0 / False / -0.0): only for
+            # oracles that do not key a dict by the item (HyperLogLog merge equality)
+            *([st.booleans(), st.sampled_from([0.0, 1.0, 2.0, -0.0])] if mixed else []),
         )
         return st.lists(st.tuples(base, st.sampled_from([1, 1, 1, 2, 5, 0])), max_size=120 if big else 60)
     return universe.flatmap(mk)
 
 
-def stream_case(extra):
+def stream_case(extra, mixed=False):
     def s(tier):
         return st.fixed_dictionaries({
-            "stream": items_strategy(tier),
+            "stream": items_strategy(tier, mixed),
             "cut": st.integers(0, 200),
             "seed": st.sampled_from([None, 0, 1, 7, 12345]),
             **extra,
@@ -140,6 +143,9 @@ def ex_topk(case):
         if any(y not in t for y in before):
             evicted = True
         n = sum(true.values())
+        for y in PROBES[:6]:                 # queries on items that may never have been added must not disturb the sketch
+            t.estimate_with_error(y)
+        t.max_error()
         if t.item_count != n:
             r.add(f"{P}/topk/item-count", f"{t.item_count} != {n}")
         if t.tracked_count > k:
@@ -445,9 +451,9 @@ OBLIGATIONS = [
     Obligation("topk", stream_case({"k": st.integers(1, 5)}),
                ex_topk, {"quick": 1200, "thorough": 60000},
                "weighted streams into TopK(k<=5), all clauses re-checked after every add; non-trivial = an eviction happened"),
-    Obligation("hll", stream_case({"p": st.sampled_from([4, 5, 6, 10])}),
+    Obligation("hll", stream_case({"p": st.sampled_from([4, 5, 6, 10])}, mixed=True),
                ex_hll, {"quick": 800, "thorough": 40000},
-               "streams split into two HyperLogLogs; non-trivial = both halves contain items the other lacks"),
+               "streams (incl. items that compare equal but are distinct items: 1 / True / 1.0) split into two HyperLogLogs; non-trivial = both halves contain items the other lacks"),
     Obligation("tdigest", td_strategy, ex_td, {"quick": 800, "thorough": 40000},
                "finite float multisets (mixed magnitudes, repeated values, weights) with compression 1..200 and generated query points plus 0, 1; non-trivial = centroids were merged or >=5 distinct values"),
     Obligation("reservoir", stream_case({"k": st.sampled_from([1, 2, 3, 10])}),
